@@ -1,6 +1,7 @@
 package main
 
 import (
+	"fmt"
 	"go/ast"
 	"sort"
 	"strings"
@@ -341,6 +342,30 @@ func checkC03(p *Prog, r *Report) {
 			via := p.CG().Reachable([]*Func{vs}, func(e *CallEdge) bool { return !e.Go })
 			_, reach := via[sbr]
 			r.Check(!reach, "validateSelectedPair sends no checks", p.Pos(vs.Body.Pos()), "sendBindingRequest unreachable", "validateSelectedPair reaches sendBindingRequest: "+Chain(via, sbr))
+		}
+	}
+
+	// ---- R3.7 the role test and the nomination send are one task ------------------------------------------
+	r.Rule("R3.7", "Every send of a nomination request (USE-CANDIDATE) happens in a controlling selector's method or is dominated, inside the same task-loop function, by the test that the agent is controlling: the role cannot change between the test and the send.", 1)
+	{
+		ci := p.Contexts()
+		n := 0
+		for _, f := range p.AllFuncs {
+			for _, c := range p.CallsTo(f, false, "ice.Agent.sendNominationRequest") {
+				n++
+				if strings.HasPrefix(f.Root().Name, "controllingSelector.") {
+					r.OK("nomination sent by "+f.Name, p.Pos(c.Pos()), "controlling selector")
+					continue
+				}
+				guarded := factListHas(p.DominatingFactList(f, c), func(ft Fact) bool {
+					return ft.Op == "truth" && ft.Val && p.isMethodOnField(ft.X, "Agent.isControlling", "Load")
+				})
+				inLoop := ci.Has(f, CtxLoop) && !ci.Has(f, CtxAPI)
+				r.Check(guarded && inLoop, "nomination sent by "+f.Name, p.Pos(c.Pos()), "isControlling tested in the same loop task", fmt.Sprintf("role tested in this function=%v, function runs only inside the task loop=%v: a role conflict handled between the test and the send lets a controlled agent emit USE-CANDIDATE", guarded, inLoop))
+			}
+		}
+		if n == 0 {
+			r.Fail("nomination senders", "", "no caller of sendNominationRequest found")
 		}
 	}
 }
